@@ -116,6 +116,9 @@ def recs_to_script(recs):
 def classify(x):
     """label a rejection (reporting only; the verdict is TLC's): (key, text)"""
     recs, idx, inv = x["records"], x["index"], x["inv"]
+    if not recs or recs[0].get("e") != "Reset":
+        why = recs[0].get("why") if recs else "empty trace"
+        return "abort:before_first_call", f"the run aborted while creating / measuring fresh objects, before the first call of the history ({why})"
     bad = recs[idx] if idx < len(recs) else {"e": "END"}
     hist = [rec_to_op(r) for r in recs[1:idx + 1] if r.get("e") not in ("End", "ABORT", "Reset")]
     kinds = recs[0].get("kinds", [])
